@@ -107,7 +107,23 @@ func validDocs(u *universe, t *target, c *vf.Ctx, n int) []any {
 		seen[string(b)] = true
 		out = append(out, doc)
 	}
+	// destinations whose values MapEncode cannot express (it panics on non-string map keys):
+	// hand-written documents of the right shape, so that the decoder side is still exercised
+	{
+		for _, txt := range handDocs[t.name] {
+			var doc any
+			if json.Unmarshal([]byte(txt), &doc) == nil {
+				out = append(out, doc)
+			}
+		}
+	}
 	return out
+}
+
+var handDocs = map[string][]string{
+	"Maps":    {`{"a":{"1":2,"200":65535},"b":{"k":{"x":1,"y":2}},"c":{"7":"0x0102"}}`, `{"a":{},"b":{},"c":{}}`},
+	"MapU8":   {`{"1":2,"3":4}`},
+	"Counted": {`{"l":[1,2,3],"m":{"1":5},"p":7,"s":[9]}`},
 }
 
 var (
